@@ -196,6 +196,6 @@ theorem absorb_extShape (c : Code) (o : Options) : ∀ y t t1, absorb c o t y = 
 theorem steps_extShape {c : Code} {o : Options} {t t2 : Tracer} (hw : WF o t) (h : Steps c o t t2) :
     ExtShape c o t t2 :=
   Steps.lift (ExtShape c o) (ExtShape.refl c o)
-    (fun t y t1 t2 hw ha h => (absorb_extShape c o y t t1 ha hw).trans h) hw h
+    (fun t y t1 _ hw ha h => (absorb_extShape c o y t t1 ha hw).trans h) hw h
 
 end SaModel.Lemmas.C06
